@@ -187,7 +187,7 @@ def run(ctx):
     violations, samples = [], []
     dist = collections.Counter()
     cases = 0
-    per = 200 if thorough else 14
+    per = 200 if thorough else 14 * ctx.get('scale', 1)
     old_switch = sys.getswitchinterval()
     for sc in scs:
         ref, traces = alone(sc)
@@ -237,7 +237,7 @@ def run(ctx):
     try:
         sc = scs[0]
         ref_all, _ = alone(scs[1])
-        for rnd in range(60 if thorough else 8):
+        for rnd in range(60 if thorough else 8 * ctx.get('scale', 1)):
             nthreads = rng.randrange(2, 9)
             reset_process_state()
             bodies3 = scs[1].make()
